@@ -139,6 +139,11 @@ def run_property(prop, tier, seed):
         for f in res.get("fail", []):
             own = f.pop("case", None)
             agg["failures"].append((own if own is not None else res.get("case"), f))
+        if res.get("ncrashes"):
+            agg["stats"]["pipeline-crashes-in-this-space"] += res["ncrashes"]
+            agg.setdefault("crash_examples", [])
+            if len(agg["crash_examples"]) < 5:
+                agg["crash_examples"].extend(res["crashes"][:2])
         if res.get("sample") is not None and len(agg["samples"]) < 6:
             agg["samples"].append(res["sample"])
 
@@ -220,6 +225,9 @@ def run_property(prop, tier, seed):
             print("VIOLATION property=%s replay=%s" % (prop, path))
             print("  family=%s kind=%s cases_in_cluster=%d tags=%s" % (f.get("family"), f.get("kind"), len(items), f.get("tags")))
             print("  detail: %s" % str(f.get("detail"))[:600])
+    if agg.get("crash_examples") and prop != "C03":
+        print("NOTE: the pipeline crashed on %d inputs of this check's space (a C03 matter; C03's pool includes this space). e.g. %s at %s on %r" % (
+            agg["stats"]["pipeline-crashes-in-this-space"], agg["crash_examples"][0][0], agg["crash_examples"][0][1], agg["crash_examples"][0][2][:120]))
     write_evidence(mod, prop, tier, seed, agg, t0, confirmed, explained)
     log("%s %s: evaluations=%d nontrivial=%d failures=%d explained=%d violations=%d wall=%.1fs" % (
         prop, tier, agg["evaluations"], len(agg["nontrivial_keys"]), len(agg["failures"]),
@@ -241,6 +249,8 @@ def write_evidence(mod, prop, tier, seed, agg, t0, confirmed, explained, machine
         "known_findings_hit": {k: v["n"] for k, v in explained.items()},
         "violation_clusters": [{"family": k[0], "kind": k[1], "cases": len(v)} for k, v in confirmed],
     }
+    if agg.get("crash_examples"):
+        cov["pipeline_crash_examples"] = [list(c) for c in agg["crash_examples"][:5]]
     cov.update(agg.get("extra", {}))
     if hasattr(mod, "coverage"):
         cov.update(mod.coverage(tier, agg))
